@@ -136,7 +136,7 @@ class CallGraph:
                 self._by_target.setdefault(t.qualname, []).append(s)
         for w in self.writes:
             self._writes_by_func.setdefault(w.func.qualname, []).append(w)
-        self._mod_cache: Dict[str, Set[str]] = {}
+        self._mod_cache: Dict[str, Set[Tuple[str, str]]] = {}
 
     def env(self, f: FuncInfo) -> TypeEnv:
         return self._envs[f.qualname]
@@ -368,13 +368,32 @@ class CallGraph:
                     work.append(n.qualname)
         return seen
 
-    def mod_attrs(self, f: FuncInfo) -> Set[str]:
-        """Attribute names possibly written (transitively) by calling f. Stores to `self`
-        inside constructors are excluded: the object is fresh and cannot alias."""
+    def attr_owner(self, classes: List[str], attr: str) -> str:
+        """The class that declares `attr` for receivers of the given classes ('?' if unknown
+        or ambiguous).  Used to keep equally named fields of unrelated classes apart."""
+        owners: Set[str] = set()
+        for c in classes:
+            if c not in self.program.classes:
+                return "?"
+            found = None
+            for k in reversed(self.program.mro(c)):
+                if attr in self.ctab.attrs.get(k, {}):
+                    found = k
+                    break
+            if found is None:
+                return "?"
+            owners.add(found)
+        if len(owners) == 1:
+            return next(iter(owners))
+        return "?"
+
+    def mod_attrs(self, f: FuncInfo) -> Set[Tuple[str, str]]:
+        """(owner class, attribute) pairs possibly written (transitively) by calling f.
+        Stores to `self` inside constructors are excluded: the object is fresh and cannot alias."""
         if f.qualname in self._mod_cache:
             return self._mod_cache[f.qualname]
         self._mod_cache[f.qualname] = set()  # cycle guard
-        res: Set[str] = set()
+        res: Set[Tuple[str, str]] = set()
         for w in self.writes_in(f):
             if (
                 f.name == "__init__"
@@ -382,7 +401,7 @@ class CallGraph:
                 and w.recv_expr.id == "self"
             ):
                 continue
-            res.add(w.attr)
+            res.add((self.attr_owner(w.recv, w.attr) if w.recv else "?", w.attr))
         for s in self.calls_in(f):
             if s.how == "byname":
                 continue
